@@ -122,6 +122,13 @@ class C20(Prop):
         stt.count("readonly" if case["readonly"] else "writable")
         held = []
         readonly_error = [None]
+        sub_snaps = []  # (funsor, inputs items, output) of every sub-term, taken right after it was built
+
+        def on_built(f):
+            if isinstance(f, Funsor) and len(sub_snaps) < 400:
+                sub_snaps.append((f, tuple((k, repr(d)) for k, d in f.inputs.items()), repr(f.output)))
+
+        leaves.on_built = on_built
 
         def guard(fn, what):
             try:
@@ -226,6 +233,10 @@ class C20(Prop):
         changed = leaves.changed()
         if changed:
             raise Violation("leaf-array-mutated", f"{len(changed)} user-supplied array(s) changed (shape {changed[0][1]}): {self.describe(case)}")
+        for f, ins, out in sub_snaps:
+            now = tuple((k, repr(d)) for k, d in f.inputs.items())
+            if now != ins or repr(f.output) != out:
+                raise Violation("subterm-inputs-mutated", f"a sub-term {type(f).__name__} had inputs {ins} when it was built and has {now} now: {self.describe(case)}")
         for snap in held:
             msg = compare_snapshot(snap, "after follow-ups")
             if msg:
